@@ -543,7 +543,9 @@ class BaseNode:
             nonlocal diameter
             if node.is_leaf:
                 return 1
-            child_length = [_recursive_diameter(child) for child in node.children]
+            child_length = [
+                _recursive_diameter(child) for child in node.children if child
+            ]
             diameter = max(diameter, sum(heapq.nlargest(2, child_length)))
             return 1 + max(child_length)
 
